@@ -3,6 +3,7 @@ package main
 // C16 — protocol configuration options and PDU session bitmaps.
 
 import (
+	"os"
 	"strings"
 	"fmt"
 	"go/token"
@@ -674,6 +675,34 @@ func readerModels(it *Interp) {
 		}
 		return it.constBV(uint64(data.Len-pos), 64).signed(), true
 	}
+	// dst.ReadFrom(src) with src a modelled buffer / reader: the unread octets of src are appended
+	// to dst, src is drained; returns (n, nil)
+	it.Models["(*bytes.Buffer).ReadFrom"] = func(it *Interp, st *state, call *ssa.CallCommon, args []Value) (Value, bool) {
+		dp, ok1 := args[0].(Ptr)
+		sp, ok2 := args[1].(Ptr)
+		if !ok1 || !ok2 {
+			return nil, false
+		}
+		zeroBuffer(it, st, sp.Obj)
+		sdata, okD := st.mem[sp.Obj][".data"].(SliceV)
+		spos, okP := it.concreteInt(st.mem[sp.Obj][".pos"])
+		if !okD || !okP || sdata.Len < 0 {
+			return nil, false
+		}
+		var bs []BV
+		for i := spos; i < sdata.Len; i++ {
+			b, ok := it.load(st, it.sliceElemPtr(sdata, i), u8T).(BV)
+			if !ok {
+				return nil, false
+			}
+			bs = append(bs, b)
+		}
+		if !bufWrite(it, st, dp, bs) {
+			return nil, false
+		}
+		st.mem[sp.Obj][".pos"] = it.constBV(uint64(sdata.Len), 64)
+		return TupleV{it.constBV(uint64(len(bs)), 64).signed(), NilV{}}, true
+	}
 	// a bytes.Reader over a slice has the same position/length model as a buffer used for reading
 	it.Models["(*bytes.Reader).ReadByte"] = it.Models["(*bytes.Buffer).ReadByte"]
 	it.Models["(*bytes.Reader).Len"] = it.Models["(*bytes.Buffer).Len"]
@@ -686,6 +715,9 @@ func readerModels(it *Interp) {
 		data, ok1 := st.mem[rp.Obj][".data"].(SliceV)
 		pos, ok2 := it.concreteInt(st.mem[rp.Obj][".pos"])
 		if !ok1 || !ok2 {
+			if os.Getenv("NASVERIF_DEBUG") == "read" {
+				fmt.Fprintf(os.Stderr, "[e2] binary.Read: reader not modelled: obj=%s cells=%v\n", rp.Obj.Name, st.mem[rp.Obj])
+			}
 			return nil, false
 		}
 		take := func(n int) ([]BV, bool) {
